@@ -940,8 +940,7 @@ class AstToCfg(ast.NodeVisitor):
 
     if node.type is not None:
       self.visit(node.type)
-    if node.name is not None:
-      self.visit(node.name)
+    # Note: in Python 3, node.name is a plain string, not an AST node.
 
     for stmt in node.body:
       self.visit(stmt)
